@@ -107,7 +107,7 @@ def _time_xml(shape, choice):
   return tt(ser(shape))
 
 
-def fam_time(sizes, full, with_text_flag, body_plain=False):
+def fam_time(sizes, full, with_text_flag, body_plain=False, body_reduced_from=None):
   """all shapes of the given sizes x the product of the per-node domains"""
   table, starts, total = [], [], 0
   for n in sizes:
@@ -116,6 +116,8 @@ def fam_time(sizes, full, with_text_flag, body_plain=False):
       doms = [_node_domain(x, full, with_text_flag) for x in nodes]
       if body_plain:
         doms[0] = [("par", (None, None, None), False)]
+      elif body_reduced_from is not None and n >= body_reduced_from:
+        doms[0] = _node_domain(nodes[0], False, False)
       p = Product(doms)
       table.append((sh, p))
       starts.append(total)
@@ -148,6 +150,16 @@ def expr_values(fr):
   ]
 
 
+def _expr_disc(syn, fr, mult, tick):
+  """only the parameters that the syntax depends on"""
+  d = f"syntax={syn}"
+  if syn in ("clock-frames", "f"):
+    d += f",frameRate={'-' if fr is None else 'set'},mult={'-' if mult is None else 'set'}"
+  elif syn == "t":
+    d += f",tickRate={'-' if tick is None else 'set'}"
+  return d
+
+
 def fam_expr():
   cases = []
   for fr in (None, 24, 25, 30):
@@ -167,7 +179,7 @@ def fam_expr():
     xml = tt(el("body", {"xml:lang": "n0"}, [el("div", {"xml:lang": "n1"}, [el("p", pa, ["x"])])]), a)
     default_tick = syn == "t" and tick is None
     return {"xml": xml, "area": "expr", "clause": "C04.time.tickrate.default" if default_tick else "C04.time.expr",
-            "d": f"syntax={syn},frameRate={'-' if fr is None else 'set'},mult={'-' if mult is None else 'set'},tickRate={'-' if tick is None else 'set'}"}
+            "d": f"frameRate={'-' if fr is None else 'set'}" if default_tick else _expr_disc(syn, fr, mult, tick)}
   return len(cases), decode
 
 
